@@ -1232,6 +1232,10 @@ impl<T: TypeConfig> RaftRoleState for LeaderState<T> {
                         my_id
                     );
                     //TODO: if there is a bug?  self.update_current_term(vote_request.term);
+                    // Adopt the higher term before stepping down (as the VoteRequest branch and the
+                    // Candidate do): BecomeFollower publishes LeaderInfo with the role's current term,
+                    // so a stale term here would announce the new leader under this node's old term.
+                    self.update_current_term(append_entries_request.term);
                     // Revoke lease immediately — window-period fix (see VoteRequest branch).
                     self.shared_state.lease.revoke();
                     self.send_become_follower_event(
